@@ -10,17 +10,17 @@ import miri as M
 # families per tier for the native substrate (16 workers)
 BUDGET = {
     #        quick      thorough
-    "C05": (1_200_000, 40_000_000),
-    "C06": (1_200_000, 40_000_000),
-    "C07": (1_500_000, 50_000_000),
-    "C08": (1_200_000, 40_000_000),
-    "C09": (200_000, 6_000_000),
-    "C10": (1_000_000, 30_000_000),
-    "C13": (300_000, 4_000_000),
-    "C14": (1_200_000, 40_000_000),
+    "C05": (1_500_000, 40_000_000),
+    "C06": (2_500_000, 60_000_000),
+    "C07": (3_000_000, 70_000_000),
+    "C08": (3_000_000, 70_000_000),
+    "C09": (600_000, 18_000_000),
+    "C10": (2_000_000, 50_000_000),
+    "C13": (400_000, 5_000_000),
+    "C14": (2_000_000, 50_000_000),
     "C15": (700_000, 25_000_000),
-    "C16": (1_200_000, 40_000_000),
-    "C17": (1_200_000, 40_000_000),
+    "C16": (2_500_000, 60_000_000),
+    "C17": (2_500_000, 60_000_000),
 }
 
 # properties whose native run is repeated on the `plain` build flavour, with
@@ -192,12 +192,58 @@ def run_property(prop, tier, seed):
     extra = None
     if prop == "C13":
         extra = ["--cost-max-log2", "16" if tier == "quick" else "20"]
-    res = D.run_workers(exe, prop, seed, total, chunk, timeout_per_chunk=(90 if tier == "quick" else 900), extra_args=extra)
+    tmo = 90 if tier == "quick" else 900
+    cross_cpu_violation = None
+    if prop == "C09":
+        # one simulated CPU per worker process (a process-wide cache that a
+        # change might introduce must never see the CPU change under its feet);
+        # the CPU dimension is compared across the three passes
+        res = None
+        ref_hashes = None
+        for cpu in ("Host", "NoAvx2", "NoSimd"):
+            r = D.run_workers(exe, prop, seed, total // 3, chunk, timeout_per_chunk=tmo, want_hashes=True,
+                              extra_args=["--force-cpu", cpu])
+            if res is None:
+                res = r
+                ref_hashes = r.hashes
+            else:
+                D.merge_stats(res.stats, r.stats)
+                res.families += r.families
+                res.executions += r.executions
+                res.sig_files += r.sig_files
+                res.trace_sum += r.trace_sum
+                res.wall += r.wall
+                res.out_files += r.out_files
+                if r.violation is not None and res.violation is None:
+                    res.violation = r.violation
+                if res.violation is None and cross_cpu_violation is None:
+                    bad = sorted(i for i in ref_hashes if r.hashes.get(i) != ref_hashes[i])
+                    if bad:
+                        cross_cpu_violation = (bad[0], cpu)
+            if res.violation is not None:
+                break
+    else:
+        res = D.run_workers(exe, prop, seed, total, chunk, timeout_per_chunk=tmo, extra_args=extra)
     sig = D.distinct_sigs(exe, res.sig_files)
     cov = native_coverage(prop, res, sig)
     D.cleanup_outs(res)
     if res.violation is not None:
         rc = finish_violation(prop, tier, seed, exe, res, t0, cov)
+        if rc is not None:
+            return rc
+    if cross_cpu_violation is not None:
+        # confirm in ONE fresh process running this single family under all
+        # configurations; only then is it a property of the code and not of
+        # state carried from one episode to the next
+        fam, cpu = cross_cpu_violation
+        res.violation = {"how": "gen", "family": fam, "gen_args": []}
+        try:
+            rc = finish_violation(prop, tier, seed, exe, res, t0, cov)
+        except D.HarnessError:
+            rc = None
+            D.log("note: family %d differs between the %s and Host worker processes but not within one fresh process "
+                  "(state carried across episodes, not a C09 matter); not reported" % (fam, cpu))
+            res.violation = None
         if rc is not None:
             return rc
     # build configuration (S4): the shipped configuration has no debug
